@@ -117,7 +117,7 @@ def components(c, geo, gname, t_offset_rows=0, persistent=False):
     elif bf == "arr":
         bp = np.array([1.0 + (((FQ * j) // 6) % 2) for j in range(F)])
     elif bf == "badlen":
-        bp = np.array([1.0] * (F + 1))
+        bp = np.array([1.0] * 97)        # never the length of any (restricted, sub-sampled) frequency grid of the model
     else:
         bp = "not a bandpass"
     bnd = None
